@@ -3,6 +3,7 @@ package bmc
 import (
 	"context"
 	"encoding/hex"
+	"errors"
 	"fmt"
 	"hash"
 	"time"
@@ -14,6 +15,11 @@ import (
 	"github.com/google/gopacket"
 	"github.com/google/gopacket/layers"
 	"github.com/prometheus/client_golang/prometheus"
+)
+
+var (
+	errUnauthenticatedResponse = errors.New("response lacks an AuthCode although an integrity algorithm was negotiated")
+	errWrongSessionResponse    = errors.New("response is addressed to a different session ID")
 )
 
 // V2Session represents an established IPMI v2.0/RMCP+ session with a BMC.
@@ -201,6 +207,15 @@ func (s *V2Session) buildAndSend(ctx context.Context, c ipmi.Command) error {
 		types := layerexts.DecodedTypes(s.layers)
 		if err := types.InnermostEquals(ipmi.LayerTypeMessage); err != nil {
 			return err
+		}
+		// the session layer verifies the AuthCode only of packets that claim
+		// to be authenticated, so a packet without the flag, or for another
+		// session, must not be taken as the response
+		if s.integrityAlgorithm != nil && !s.v2SessionLayer.Authenticated {
+			return errUnauthenticatedResponse
+		}
+		if s.v2SessionLayer.ID != s.LocalID {
+			return errWrongSessionResponse
 		}
 		code := s.messageLayer.CompletionCode
 		// must increment here, otherwise we'll miss temporary codes at the
